@@ -78,7 +78,7 @@ inductive Value
   | listGet (l i : Var)              -- `CallRuntime` of `List.get` (pure)
   | idxAdd (a b : Var)               -- `BinOp Add` on the `u64` loop index (no `i32` wrap)
   | toStr (x : Var)                  -- `CallRuntime` of the type's `to_string` (for a primitive type: pure; for the host type: a logged host call)
-  | append (a b : Var)               -- `CallRuntime` of `String.append` (pure)
+  | append (a b : Var)               -- `CallRuntime` of `String.append` / of `List.concat` (`desugared_binop`; pure)
   | call (f : Nat) (args : List Var) -- `Value::Call`: a script function (run by `EvalV`, not by `evalValue`)
   | disc (x : Var)                   -- `Value::Discriminant`
   | cloneProj (x : Var) (i : Nat) (tag : Nat)   -- `Clone` of `x.Variant#i` (`tag` names the variant when printed)
@@ -170,6 +170,7 @@ def evalValue (σ : Store) : Value → Option (Trace × Val)
   | .toStr x => (render (σ x)).map (fun p => (p.1, .str p.2))   -- a host type's `to_string` is a logged host call
   | .append a b => match σ a, σ b with
     | .str s, .str t => some ([], .str (s ++ t))
+    | .list s, .list t => some ([], .list (s ++ t))   -- `List.concat`: a fresh list
     | _, _ => none
   | .call _ _ => none   -- needs the program: see `EvalV`
   | .disc x => (discOf (σ x)).map (fun d => ([], .int d))
